@@ -24,6 +24,8 @@ def first_line(d):
 def main():
     rows, total, caught, late = [], 0, 0, 0
     for d in sorted(glob.glob(os.path.join(VERIF, "seeded", "*"))):
+        if not os.path.exists(os.path.join(d, "meta.json")):
+            continue
         m = json.load(open(os.path.join(d, "meta.json")))
         total += 1
         cb = ", ".join(m.get("caught_by") or []) or "**not caught**"
